@@ -34,6 +34,8 @@ type Index struct {
 	Callees  map[*ssa.Function][]*ssa.Function
 	Refs     map[*ssa.Function][]*ssa.Function // function -> in-scope functions that call it or take it as a value
 
+	everyIfaceMethod map[string]bool
+	liveFieldStores  map[string]bool // fieldKey -> stored to / address handed on by code that can run (hooks.go)
 	ifaceMethodNames map[string]bool
 	seamSites        map[*types.TypeName][2]int // unexported interface -> (method calls through it, of which bound)
 }
@@ -305,6 +307,7 @@ func BuildIndex(p *Program) *Index {
 		}
 	}
 	ix.buildRefs()
+	ix.dropDead()
 	return ix
 }
 
